@@ -472,7 +472,7 @@ class OrdSuite(Suite):
                 elif c < 0.45 and not f.ft.native:
                     f.at['o'] = 'method'
                     metas.append(('method', meth))
-                if f.at['o'] == 'plain' and not metas and r.random() < 0.15:
+                if f.at['o'] == 'plain' and not metas and r.random() < 0.35:
                     metas.append(('noignore', None))
                 if f.at['o'] != 'ignore' and r.random() < 0.5:
                     f.at['rank'] = ranks[i]
@@ -1059,6 +1059,8 @@ class UnionSuite(Suite):
                 val, exp = uvals[fs[dfield].ft.rust]
                 fs[dfield].dval = exp
                 fs[dfield].at['_metas'] = [sp_default_value(r, val)]
+                if fs[dfield].ft.rust == 'Off' and r.random() < 0.6:
+                    fs[dfield].at['_metas'] = [pick(r, ['Default(expression(%s))', 'Default(expr(%s))', 'Default(expression(%s), )']) % val]
             ta.append('Default')
         r.shuffle(ta)
         t.type_attrs = [', '.join(ta)]
@@ -1241,8 +1243,15 @@ def _make_union_bounds(self, r, tid):
         fs.append(Fld('c', FT('u8', [])))
     r.shuffle(fs)
     t = Ty(tid, 'union', [Var(None, 'named', fs)])
-    t.generic = params
+    t.generic = list(params)
     g = ', '.join(params)
+    pre = ''
+    if trait in ('CopyClone', 'Eq') and r.random() < 0.4:
+        # a const parameter in front of the type parameters (and used by a field)
+        t.generic = ['const M: usize'] + list(params)
+        fs.append(Fld('arr', FT('[u8; M]', [])))
+        g = 'const M: usize, ' + g
+        pre = '3, '
     need_all = True
     if trait == 'Default':
         # only the chosen field is defaulted, and only when it has no expression of its own
@@ -1257,10 +1266,11 @@ def _make_union_bounds(self, r, tid):
         needed_params = set() if withexpr else {chp}
     elif trait == 'Eq':
         t.type_attrs = ['Eq']
-        extra = [MANUAL_IMPL['PartialEq'] % dict(g=g, a=g)]
+        extra = [MANUAL_IMPL['PartialEq'] % dict(g=g, a=('M, ' if pre else '') + ', '.join(params))]
         probes = [('p_eq', 'Eq')]
     else:
-        t.type_attrs = [pick(r, ['Copy, Clone', 'Clone, Copy'])]
+        # `bound(*)`: every type parameter (and only type parameters), here the same set as the automatic mode
+        t.type_attrs = [pick(r, ['Copy, Clone', 'Clone, Copy', 'Copy, Clone(bound(*))', 'Clone(bound(*)), Copy', 'Copy, Clone(bound = true)'])]
         extra = []
         probes = [('p_copy', 'Copy'), ('p_clone', 'Clone')]
     checks = []
@@ -1269,7 +1279,7 @@ def _make_union_bounds(self, r, tid):
             exp = all((c == 'Good' or (c == 'Half' and trait == 'Eq')) for c in combo)
             if not need_all:
                 exp = all(c != 'Bad' for p_, c in zip(params, combo) if p_ in needed_params)
-            inst = 'T<%s>' % ', '.join(combo)
+            inst = 'T<%s%s>' % (pre, ', '.join(combo))
             checks.append('{ use crate::support::%s::Fallback as _; let g = crate::support::%s::P::<%s>::YES; out.check(g == %s, "%s", "impl_applies", || format!("%s: %s is {} but the field types say %s", g)); }'
                           % (probe, probe, inst, 'true' if exp else 'false', tid, inst, tn, 'true' if exp else 'false'))
     body = '\n'.join(extra + ['pub fn run(out: &mut Out) { %s }' % ' '.join(checks)])
